@@ -50,7 +50,14 @@ def gen_polygon(rng, patterns):
         if rng.random() < 0.4:
             rings.insert(int(rng.integers(0, len(rings) + 1)), [])
         return rings, False
-    if r < 0.6:
+    if r < 0.25:
+        # unit lattice triangle, |area| = 1/2: the smallest definite orientation on integer grids
+        x, y = int(rng.integers(0, 6)), int(rng.integers(0, 6))
+        rings = [gg.flat([(x, y), (x + 1, y), (x, y + 1), (x, y)])]
+        if rng.random() < 0.4:
+            rings = [gg.flat([(x - 3, y - 3), (x + 4, y - 3), (x + 4, y + 4), (x - 3, y + 4), (x - 3, y - 3)]),
+                     gg.flat([(x, y), (x, y + 1), (x + 1, y), (x, y)])]
+    elif r < 0.6:
         rings = gg.rect_polygon(rng, int(rng.integers(3, 6)), reverse=False, dup_p=0.1)[0]
     else:
         rings = gg.star_polygon(rng, span=6, holes=(0, 1, 2, 3))
